@@ -11,6 +11,7 @@ Inductive layer :=
 | LMap (t : Z) (raises : bool)       (* with_map(fn) *)
 | LFlatMap (t : Z) (raises : bool)   (* with_flat_map(fn): fn returns f_return(..) *)
 | LPoll (t : Z)                      (* with_poll: the poll function yields a tagged result at once *)
+| LMapE (t : Z)                      (* with_map(fn, error_fn): fn tags; error_fn swallows the failure and returns None (= -1) *)
 | LRetry (max_attempts : nat)          (* with_retry(max_attempts=..), ExceptionRetryPolicy over Exception *)
 | LIdent.                              (* throttle, timeout (not expiring), cancel_on_shutdown *)
 
@@ -19,6 +20,13 @@ Definition apply_fn (t : Z) (raises : bool) (o : outcome) : outcome * nat :=
   match o with
   | Err e => (Err e, 0)
   | Ok v => (if raises then Err (2000 + t)%Z else Ok (tagv t v), 1)
+  end.
+
+Definition none_val : Z := (-1)%Z.
+Definition apply_fn_e (t : Z) (o : outcome) : outcome * nat :=
+  match o with
+  | Err _ => (Ok none_val, 1)
+  | Ok v => (Ok (tagv t v), 1)
   end.
 
 (* state: number of callable invocations so far; result: outcome, invocations, user-function calls *)
@@ -39,6 +47,7 @@ Fixpoint eval (ls : list layer) (script : nat -> outcome) (k : nat) : outcome * 
   | LMap t r :: below => let '(o, k', c) := eval below script k in let '(o', n) := apply_fn t r o in (o', k', c + n)
   | LFlatMap t r :: below => let '(o, k', c) := eval below script k in let '(o', n) := apply_fn t r o in (o', k', c + n)
   | LPoll t :: below => let '(o, k', c) := eval below script k in let '(o', n) := apply_fn t false o in (o', k', c + n)
+  | LMapE t :: below => let '(o, k', c) := eval below script k in let '(o', n) := apply_fn_e t o in (o', k', c + n)
   | LRetry m :: below => retry_loop (eval below script) m 1 m k 0
   | LIdent :: below => eval below script k
   end.
@@ -59,7 +68,7 @@ Proof.
   induction ls as [|l r IH]; intros H; simpl; [reflexivity|].
   destruct l; simpl in H; try discriminate;
     try (specialize (IH H); destruct (eval r script k) as [[o k'] c]; simpl in *;
-         match goal with |- context [apply_fn ?t ?b ?o] => destruct (apply_fn t b o) end; simpl; exact IH).
+         match goal with |- context [apply_fn ?t ?b ?o] => destruct (apply_fn t b o) | |- context [apply_fn_e ?t ?o] => destruct (apply_fn_e t o) end; simpl; exact IH).
   exact (IH H).
 Qed.
 
@@ -78,7 +87,7 @@ Lemma eval_mono ls script : forall k, k < snd (fst (eval ls script k)).
 Proof.
   induction ls as [|l r IH]; intros k; simpl; [lia|].
   destruct l; try (specialize (IH k); destruct (eval r script k) as [[o k'] c]; simpl in *;
-    match goal with |- context [apply_fn ?t ?b ?o] => destruct (apply_fn t b o) end; simpl; exact IH).
+    match goal with |- context [apply_fn ?t ?b ?o] => destruct (apply_fn t b o) | |- context [apply_fn_e ?t ?o] => destruct (apply_fn_e t o) end; simpl; exact IH).
   - apply retry_loop_mono. exact IH.
   - apply IH.
 Qed.
@@ -105,10 +114,10 @@ Proof.
   - assert (W : forall e0, ((exists i, script i = Err e0) \/ raised_by_stack r e0) ->
                            (exists i, script i = Err e0) \/ raised_by_stack (l :: r) e0).
     { intros e0 [A|(t & Et & Hin)]; [left; exact A|right]. exists t. split; auto. destruct Hin; [left|right]; right; auto. }
-    destruct l as [t b|t b|t|m|];
+    destruct l as [t b|t b|t|t|m|];
       try (specialize (IH k); destruct (eval r script k) as [[o k'] c]; simpl in *; destruct o as [v|e0]; simpl;
            [ try destruct b; simpl; intros H; try discriminate; inversion H; subst; right; exists t; split; auto; simpl; auto
-           | intros H; inversion H; subst; apply W; apply IH; reflexivity ]).
+           | intros H; try discriminate; inversion H; subst; apply W; apply IH; reflexivity ]).
     intros H. apply (retry_loop_err (eval r script) m 1 m k 0 e
                        (fun e0 => (exists i, script i = Err e0) \/ raised_by_stack (LRetry m :: r) e0)); auto.
     intros k0 e0 E0. apply W. eapply IH; eauto.
@@ -123,6 +132,7 @@ Fixpoint layers_of (l : list Z) : list layer :=
   | 2 :: t :: _ :: rest => LPoll t :: layers_of rest
   | 3 :: m :: _ :: rest => LRetry (Z.to_nat m) :: layers_of rest
   | 4 :: _ :: _ :: rest => LIdent :: layers_of rest
+  | 5 :: t :: _ :: rest => LMapE t :: layers_of rest
   | _ => []
   end.
 Definition script_of (l : list Z) (k : nat) : outcome :=
